@@ -132,7 +132,11 @@ def cases(tier):
 def _all_cases(tier):
     names = _trans_names()
     for kind, seed in _tier_seeds(tier):
+        info = seeds.FORTRAN[seed] if kind == "f" else seeds.PSY[seed]
         for name in names:
+            if tier == "quick" and info.get("quick_only") and \
+                    name not in info["quick_only"]:
+                continue
             variants = core.CTOR_VARIANTS.get(name, [{}])
             if name in seeds.SEED_CTOR:
                 variants = seeds.SEED_CTOR[name].get(seed)
@@ -394,8 +398,11 @@ class Runner:
     def _count(self, name, num=1):
         self.classes[name] = self.classes.get(name, 0) + num
 
-    def instance(self):
-        if self.inst is None or self.inst["dirty"]:
+    def instance(self, pristine=False):
+        """The tree to run the next attempt on; pristine=True refuses a tree
+        whose reference snapshot was moved (lazily materialised state)."""
+        if self.inst is None or self.inst["dirty"] or \
+                (pristine and self.inst.get("rebased")):
             self.inst = self.sst.build()
         return self.inst
 
@@ -432,6 +439,7 @@ class Runner:
                 if lazy:
                     self._count("psy:lazily-materialised-state-only")
                 inst["snap0"] = snap1
+                inst["rebased"] = True
                 inst["dirty"] = False
         changed = core.changed_components(before, after)
         if not changed:
@@ -446,13 +454,17 @@ class Runner:
 
     # -- one attempt (plain or injected) -------------------------------------
     def attempt(self, tdescs, odesc, inject=None, expect_label=None):
-        inst = self.instance()
+        # injected re-executions always start from the pristine state so
+        # that they take the same path as the execution that was recorded
+        inst = self.instance(pristine=inject is not None)
+        start_rebased = bool(inst.get("rebased"))
         fresh = inst["uses"] == 0
         inst["uses"] += 1
         tcls = "/".join(core.target_classes(inst["root"], d) for d in tdescs)
         res, changed, before, after = self.execute(inst, tdescs, odesc,
                                                    inject)
         res["changed"] = changed
+        res["start_rebased"] = start_rebased
         if inject is not None:
             self.inject_runs += 1
             if not res["injected"]:
@@ -579,6 +591,15 @@ class Runner:
 
     # -- injection loop for one attempt ------------------------------------
     def inject_all(self, tdescs, odesc, res, cap):
+        if res.get("start_rebased"):
+            # the recorded execution started from a tree with lazily
+            # materialised state: record the nested calls again from the
+            # pristine state (not counted, tree discarded)
+            inst = self.sst.build()
+            args = [core.resolve_target(inst["root"], d) for d in tdescs]
+            trans = core.make_transformation(self.trans, self.ctor,
+                                             inst["root"])
+            res = core.run_apply(trans, args, odesc, None)
         calls = res["calls"]
         todo = []
         for idx, call in enumerate(calls):
